@@ -99,10 +99,14 @@ func runC02(r *core.Run) {
 			eol = "\r\n"
 		}
 		t := gen.Junk(rr, &gen.JunkCfg{Separators: true, Long: i%7 == 0, Binary: true}, 1+rr.Intn(12), eol)
-		if rr.Chance(1, 3) {
+		switch rr.Intn(4) {
+		case 0:
 			t = t[:len(t)-len(eol)]
+		case 1:
+			// cut at an arbitrary byte: the last line ends anywhere, e.g. between CR and LF
+			t = t[:rr.Intn(len(t)+1)]
 		}
-		c := &streamCase{Stream: &gen.Stream{Segs: []gen.Seg{{Text: gen.BinStr(t)}}}, Chunk: []int{0, 1, 7, 4096}[i%4]}
+		c := &streamCase{Stream: &gen.Stream{Segs: []gen.Seg{{Text: gen.BinStr(t)}}}, Chunk: []int{0, 1, 7, 4096}[i%4], EOFWithData: i%3 == 1}
 		c.Stream = gen.Normalize(c.Stream)
 		streamEval(r, c, "conservation")
 		r.Distinct(core.HashStr(t))
